@@ -3,7 +3,8 @@
     U = kc / |r_nearest|, kc = prefactor * c_i * c_j, cubic box of side L, motion along +x of the permuted
     separation (x = separation[direction], q = sum of the squares of the two other components).
     [floor] is [Int_part]; [fmod (a, b)] for a >= 0, b > 0 is  a - floor (a / b) * b.  No proofs here. *)
-From Coq Require Import Reals ZArith.
+From Coq Require Import Reals ZArith List.
+Import ListNotations.
 Open Scope R_scope.
 
 Definition ipc_pot (kc x q : R) : R := kc / sqrt (x * x + q).
@@ -44,3 +45,11 @@ Definition ipc_displacement (kc dE x q L : R) : option R :=
 (** statement used by the correspondence: the number of laps claimed for a case is floor (dE / per_lap) *)
 Definition ipc_laps_ok (laps : Z) (kc dE q L : R) : Prop :=
   IZR laps <= dE / ipc_per_lap kc q L < IZR laps + 1.
+
+(** ** Specification side (independent of the C code): the nearest-image 1/r potential along the path.
+    [nearest_image L u] reduces a coordinate to [-L/2, L/2); while the active unit advances by s the separation
+    component along the motion is x - s; the energy is monotone between the break points x + j L/2
+    (j even: closest approach to an image, j odd: half-way between two images). *)
+Definition nearest_image (L u : R) : R := u - L * IZR (Int_part (u / L + 1 / 2)).
+Definition ipc_path (kc x q L s : R) : R := ipc_pot kc (nearest_image L (x - s)) q.
+Definition ipc_breaks (x L : R) (n : nat) : list R := map (fun j => x + INR j * (L / 2)) (seq 0 n).
